@@ -86,6 +86,12 @@ def run_doc(C, val):
 # ---------------------------------------------------------------- random corruptions of larger inputs
 def rand_triple(rng):
     n, m = rng.randint(1, 6), rng.randint(1, 6)
+    if rng.random() < 0.35:
+        # distinct names that only differ by Unicode normal form / case / compatibility mapping are NOT duplicates
+        import corpus
+        objs, props = corpus.labels_for(n, m, 3)
+        return {'objs': [atom(x) for x in objs], 'props': [atom(x) for x in props],
+                'rows': [[int(rng.random() < 0.5) for _ in range(m)] for _ in range(n)]}
     return {'objs': [atom(f'o{i}') for i in range(n)], 'props': [atom(f'p{j}') for j in range(m)],
             'rows': [[int(rng.random() < 0.5) for _ in range(m)] for _ in range(n)]}
 
